@@ -13,6 +13,9 @@ SPEC = {
         "an Error event is modelled by its span only (the message text is not compared)",
         "the engine primitives of parser/src/parser/mod.rs, token_stream.rs and syntax_stream.rs are modelled by hand (Parser/Machine.v) and tied to the code by K: the model run with the generated grammar must reproduce the real event stream event for event; the grammar itself and the kind/token tables are regenerated from the source on every run",
         "node spans are proved exact only for runs in which no span was computed from a last_token_span reset by truncate() (node_spans_exact); K requires that flag to be false on every real run; a grammar for which it is true exists (node_spans_exact_all_grammars_refuted)",
+        "AST: S walks every node of the Debug rendering of the AST (structs and enum variants at every depth: expressions, quantifiers, ranges, pattern modifiers, meta values, hex tokens, jumps, alternatives): span ordered, inside the source, on character boundaries; the text at an identifier / literal node's span is that identifier / literal; a node lies inside its parent's own span; siblings are ordered and do not overlap. Two deliberate exceptions of the implementation are accepted: the span of a HexPattern node is its `{..}` literal and the span of a base64 modifier is its keyword (identifier, modifiers and alphabet lie outside)",
+        "a source that is valid UTF-8 must have a CST (no token may end inside a character)",
+        "when the parser runs out of fuel the remaining tokens are not emitted (theorem out_of_fuel_truncates); this is reachable with 18 nested function calls and is recorded as a known finding (thorough tier only, the input takes minutes)",
         "Token::start_pos/end_pos/token_at_position/token_at_offset are modelled over (class, scalar values) token lists; rowan's tree navigation (prev_token/next_token, token_at_offset) is assumed to enumerate the tokens in order and is tied by K",
     ],
     "trusted_base": ["Gen/Grammar.v: SyntaxKind/TokenId tables, SyntaxKind::token_id, From<&Token>, is_trivia, the initial fuel, the whole grammar section and top_level_item's dispatch table, regenerated from parser/src by translate/gen_grammar.py"],
@@ -22,7 +25,7 @@ RULE = ("sources from one PRNG: grammar-generated valid rules (modifiers, tags, 
         "alternatives, conditions with for/of/with/ranges/function calls, varied whitespace incl. comments, CRLF and Unicode spaces); "
         "token-level mutations of those (delete/duplicate/swap/insert tokens, unbalanced delimiters, non-ASCII characters, invalid "
         "UTF-8 bytes, truncation); deep nesting and long operator chains; token soups; random bytes; invalid UTF-8 at a random "
-        "position; two mutated sources back to back. Sources with more than 90 tokens are skipped (quick), a corpus of past "
+        "position; two mutated sources back to back; deep field-access / index / call chains (`a.b.c[0].d(e.f[1])[g]`). Sources with more than 90 tokens are skipped (quick), a corpus of past "
         "failures runs first. Non-trivial: >= 5 tokens; distinct by source bytes. Second run (tokenizer wrapper): the same streams plus "
         "sources that keep switching lexer modes (hex patterns and jumps with junk, unbalanced braces/brackets, unknown whitespace, "
         "invalid bytes, input ending inside a hex mode); per source the real call sequence on the Tokenizer and the answers of the "
